@@ -1,3 +1,4 @@
+import DefraModel.Index.Maint
 import DefraModel.Query.Model
 import DefraModel.Encoding.FieldValue
 open Defra Defra.Query
@@ -105,9 +106,23 @@ structure St where
   docs : List Doc := []
   ids : List (Nat × Bytes) := []     -- label ↦ docID bytes
   aux : List (Option Int × Int) := []  -- the second aggregate source: (v, w in eighths)
+  /-- the secondary indexes the model maintains: (fields, entries as the maintenance model keeps them) -/
+  idx : List (String × List OrderKey × List (List V × Nat)) := []
 
 /-- IEEE-754 double bits of `n8 / 8` (driver only: Lean's runtime `Float`) -/
 def f64BitsOfEighths (n8 : Int) : Nat := (Float.ofInt n8 / 8.0).toBits.toNat
+
+/-- the indexed values of a document under an index's fields -/
+def keyOf (ks : List OrderKey) (fields : List (String × V)) : List V :=
+  ks.map (fun k => ((fields.find? (·.1 == k.field)).map (·.2)).getD .null)
+
+/-- run one maintenance step on every index the model keeps -/
+def maintain (st : List (String × List OrderKey × List (List V × Nat)))
+    (docs : List (Nat × List (String × V))) (op : IndexMaint.Op (List (String × V))) :
+    List (String × List OrderKey × List (List V × Nat)) :=
+  st.map (fun ix =>
+    let s : IndexMaint.St (List (String × V)) (List V) := ⟨docs, ix.2.2⟩
+    (ix.1, ix.2.1, (IndexMaint.step (keyOf ix.2.1) s op).entries))
 
 def toEncVal : V → Enc.Val
   | .null => .null
@@ -128,27 +143,41 @@ def step (st : St) (toks : List String) : St × String :=
   | ["doc", id, name, age, score, flag, docid] =>
     match id.toNat?, parseV name, parseV age, parseV score, parseV flag, Bytes.ofHex docid with
     | some i, some n, some a, some s, some f, some did =>
-      ({ st with docs := st.docs ++ [{ id := i, fields := [("name", n), ("age", a), ("score", s), ("flag", f)] }],
-                 ids := st.ids ++ [(i, did)] }, "ok")
+      let fs := [("name", n), ("age", a), ("score", s), ("flag", f)]
+      ({ st with docs := st.docs ++ [{ id := i, fields := fs }],
+                 ids := st.ids ++ [(i, did)],
+                 idx := maintain st.idx (st.docs.map (fun d => (d.id, d.fields))) (.create i fs) }, "ok")
     | _, _, _, _, _, _ => (st, "bad-op")
   | ["aux", v, w8] => ({ st with aux := st.aux ++ [(v.toInt?, w8.toInt?.getD 0)] }, "ok")
   | ["upd", id, field, v] =>
     match id.toNat?, parseV v with
     | some i, some x =>
+      let newFields := ((st.docs.find? (·.id == i)).map (fun d =>
+        d.fields.map (fun p => if p.1 == field then (field, x) else p))).getD []
       ({ st with docs := st.docs.map (fun d => if d.id == i then
-          { d with fields := d.fields.map (fun p => if p.1 == field then (field, x) else p) } else d) }, "ok")
+          { d with fields := d.fields.map (fun p => if p.1 == field then (field, x) else p) } else d),
+                 idx := maintain st.idx (st.docs.map (fun d => (d.id, d.fields))) (.update i newFields) }, "ok")
     | _, _ => (st, "bad-op")
   | ["del", id] =>
     match id.toNat? with
-    | some i => ({ st with docs := st.docs.filter (fun d => d.id != i) }, "ok")
+    | some i => ({ st with docs := st.docs.filter (fun d => d.id != i),
+                           idx := maintain st.idx (st.docs.map (fun d => (d.id, d.fields))) (.delete i) }, "ok")
     | none => (st, "bad-op")
+  | ["idx", fields] =>
+    -- CreateIndex: every live document is indexed; from here on the index is maintained incrementally
+    let ks := parseOrder fields
+    let built := (IndexMaint.build (keyOf ks) (st.docs.map (fun d => (d.id, d.fields)))).entries
+    ({ st with idx := st.idx ++ [(fields, ks, built)] }, "ok")
   | ["keys", col, idx, fields] =>
     match col.toNat?, idx.toNat? with
     | some c, some ix =>
       let ks := parseOrder fields
-      let entries := st.docs.map (fun d =>
-        let comps := ks.map (fun k => (toEncVal (d.get k.field), k.desc))
-        let did := ((st.ids.find? (·.1 == d.id)).map (·.2)).getD []
+      -- the entries as the maintenance model holds them (not recomputed from the documents)
+      let held := ((st.idx.find? (·.1 == fields)).map (·.2.2)).getD
+        (st.docs.map (fun d => (keyOf ks d.fields, d.id)))
+      let entries := held.map (fun e =>
+        let comps := (ks.zip e.1).map (fun kv => (toEncVal kv.2, kv.1.desc))
+        let did := ((st.ids.find? (·.1 == e.2)).map (·.2)).getD []
         Bytes.render (Enc.indexKey c ix (comps ++ [(.str did, false)])))
       (st, s!"{entries.length} {",".intercalate (sortStr entries)}")
     | _, _ => (st, "bad-op")
